@@ -237,25 +237,29 @@ Definition interpolate (z y1 y2 z1 z2 : Q) : Q :=
   if is_zero dz then (y1 + y2) / 2 else y1 + (z - z1) * (y2 - y1) / dz.
 
 Definition BISECT_FUEL : nat := 200.
-(* the part of rawToTransformValue after the bound checks, before the final clamp.
-   Result: Some (y, final bracket) ; None = fuel exhausted (cannot happen: the width halves, see Proofs) *)
-Definition r2t_core (phi : Q -> Q) (z : Q) : option (Q * (Q * Q * Q * Q)) :=
-  let dzmax := Qabs ((phi 1 - phi (-(1))) / (100000 # 1)) in
+Definition bracket := (Q * Q * Q * Q)%type.            (* y1, y2, z1 = phi y1, z2 = phi y2 *)
+(* after the scan: the out-of-range exits (ANAM_YMAX + 1 / ANAM_YMIN - 1), else bisection and linear interpolation.
+   Result: Some (y, Some final-bracket) | Some (sentinel, None) | None = fuel exhausted (cannot happen, see Proofs) *)
+Definition finish_up (phi : Q -> Q) (z dzmax : Q) (s : Q * Q * Q * Q * bool) : option (Q * option bracket) :=
+  let '(y1, y2, z1, z2, _) := s in
+  if qltb ANAM_YMAX y1 then Some (ANAM_YMAX + 1, None)
+  else match bisect phi z dzmax BISECT_FUEL 1 y1 y2 z1 z2 with
+       | Some (a, b, za, zb) => Some (interpolate z a b za zb, Some (a, b, za, zb))
+       | None => None
+       end.
+Definition finish_down (phi : Q -> Q) (z dzmax : Q) (s : Q * Q * Q * Q * bool) : option (Q * option bracket) :=
+  let '(y1, y2, z1, z2, _) := s in
+  if qltb y1 ANAM_YMIN then Some (ANAM_YMIN - 1, None)
+  else match bisect phi z dzmax BISECT_FUEL 1 y1 y2 z1 z2 with
+       | Some (a, b, za, zb) => Some (interpolate z a b za zb, Some (a, b, za, zb))
+       | None => None
+       end.
+Definition dzmax_of (phi : Q -> Q) : Q := Qabs ((phi 1 - phi (-(1))) / (100000 # 1)).
+(* the part of rawToTransformValue after the bound checks and before the final clamp *)
+Definition r2t_core (phi : Q -> Q) (z : Q) : option (Q * option bracket) :=
   let z0 := phi 0 in
-  if qltb z0 z then
-    let '(y1, y2, z1, z2, found) := scan_up phi z 101 0 z0 in
-    if qltb ANAM_YMAX y1 then Some (ANAM_YMAX + 1, (y1, y2, z1, z2))
-    else match bisect phi z dzmax BISECT_FUEL 1 y1 y2 z1 z2 with
-         | Some (a, b, za, zb) => Some (interpolate z a b za zb, (a, b, za, zb))
-         | None => None
-         end
-  else
-    let '(y1, y2, z1, z2, found) := scan_down phi z 101 0 z0 in
-    if qltb y1 ANAM_YMIN then Some (ANAM_YMIN - 1, (y1, y2, z1, z2))
-    else match bisect phi z dzmax BISECT_FUEL 1 y1 y2 z1 z2 with
-         | Some (a, b, za, zb) => Some (interpolate z a b za zb, (a, b, za, zb))
-         | None => None
-         end.
+  if qltb z0 z then finish_up phi z (dzmax_of phi) (scan_up phi z 101 0 z0)
+  else finish_down phi z (dzmax_of phi) (scan_down phi z 101 0 z0).
 
 (* AnamHermite::rawToTransformValue (z defined, at least one polynomial) *)
 Definition r2t (A : anam) (z : Q) : option Q :=
@@ -289,7 +293,7 @@ Fixpoint ns_insert (e : nsentry) (l : list nsentry) : list nsentry :=
   | [] => [e]
   | x :: r => if qltb (nskey e) (nskey x) then e :: l else x :: ns_insert e r
   end.
-(* stable: later elements are inserted after their equals, so fold from the right over the reversed list *)
+(* stable: an element is inserted after the elements already present with an equal key *)
 Definition ns_sort (l : list nsentry) : list nsentry := fold_left (fun acc e => ns_insert e acc) l [].
 (* the accumulation loop: wpartial += w ; vec[j] = G(wpartial / wtotal) ; undefined -> undefined *)
 Fixpoint ns_cum (wtotal acc : Q) (l : list nsentry) : list (nat * option Q) :=
